@@ -971,7 +971,7 @@ def directed_simpy(ctx, n):
     from usim.py.exceptions import Interrupt
     rng = ctx.rng
     for _ in range(n):
-        kind = rng.choice(['embedded', 'interrupts', 'allof'])
+        kind = rng.choice(['embedded', 'interrupts', 'allof', 'falsy-results', 'stop-at-zero'])
         log = []
         if kind == 'embedded':
             T0, enter, d = rng.choice([0, 0, 4, 9]), rng.choice([0, 3, 4, 7]), rng.choice([1, 2, 5])
@@ -1019,6 +1019,35 @@ def directed_simpy(ctx, n):
             env.process(attacker(env, v))
             want = [('attacker done', t)] + [('interrupt', c, t) for c in causes] + [('victim done', t)]
             runner = lambda: env.run()   # noqa
+        elif kind == 'falsy-results':
+            # a process that yields a native coroutine / task / queue gets its result, whatever its truth value
+            vals = [rng.choice([0, '', False, [], None, 0.0, 'x', 5]) for _ in range(rng.choice([1, 2, 3]))]
+            case = {'falsy_results': [repr(v) for v in vals]}
+            env = Environment()
+
+            async def native(v, d):
+                await (usim.time + d)
+                return v
+
+            def proc(env):
+                for i, v in enumerate(vals):
+                    got = yield native(v, i % 2)
+                    log.append(('got', repr(got), type(got).__name__))
+            env.process(proc(env))
+            want = [('got', repr(v), type(v).__name__) for v in vals]
+            runner = lambda: env.run()   # noqa
+        elif kind == 'stop-at-zero':
+            # a run that stops at time 0 (an event firing at once) with later timeouts pending: env.now stays at the stop
+            T0, late = rng.choice([0, 0, 4]), rng.choice([3, 7])
+            case = {'stop_at': T0, 'later_timeout': late}
+            env = Environment(initial_time=T0)
+            stop = env.timeout(0, 'now')
+            env.timeout(late)
+
+            def runner():
+                v = env.run(until=stop)
+                log.append(('returned', v, env.now))
+            want = [('returned', 'now', T0)]
         else:
             t, fail_first = rng.choice([1, 3]), rng.random() < 0.5
             nm = rng.choice([2, 3])
